@@ -123,6 +123,31 @@ def run(ctx):
         want = np.where(src[1], 0.0, src[0]) @ M1.astype(np.float64)
         if not same_view(x1, (want, src[1], src[2])):
             bad("matmul does not multiply every observed point by the matrix (or changes confidences / missing)", {"M": M1.tolist()})
+        # ---- the same body with integer coordinates (pixel positions) or binary64 ones, and a fractional matrix: the map applied is the matrix that was asked for
+        from pose_format.numpy import NumPyPoseBody
+        Mf = np.diag([0.5, 1.5, 2.25, 0.75][:D]).astype(np.float64); Mf[0, D - 1] += 0.25
+        for dt in (np.int32, np.float64):
+            ints = np.round(src[0] * 4).astype(dt)
+            ib = NumPyPoseBody(25.0, ma.masked_array(ints, mask=src[1].copy()), np.asarray(pose.body.confidence).copy())
+            try:
+                got = arrays(_P(ib).matmul(Mf))
+                want = np.where(src[1], 0.0, ints.astype(np.float64)) @ Mf
+                if not same_view(got, (want, src[1], src[2])):
+                    bad("matmul does not multiply every observed point by the matrix (or changes confidences / missing)", {"M": Mf.tolist(), "body_dtype": np.dtype(dt).name}, {"what": "dtype"})
+            except Exception as e:
+                bad("matmul raises on a body with integer / binary64 coordinates", {"error": type(e).__name__ + ": " + str(e)[:80], "body_dtype": np.dtype(dt).name}, {"what": "dtype"})
+        # ---- the torch body of the same pose: matmul (incl. projections: a zero column / row) gives the NumPy result — values, confidences and which points are missing
+        if not case.get("extra_mask") and src[0].size:
+            try:
+                tb = pose.body.torch()
+                for Mt in (M1, np.diag([1.0] + [0.0] * (D - 1)).astype(np.float32), np.zeros((D, D), dtype=np.float32)):
+                    r = tb.matmul(Mt)
+                    got = (r.data.tensor.numpy().astype(np.float64), ~r.data.mask.numpy().astype(bool), r.confidence.numpy().astype(np.float64))
+                    ref = arrays(_P(pose.body).matmul(Mt))
+                    if not same_view(got, ref, tol=1e-5):
+                        bad("matmul on the torch body differs from the NumPy body (values, confidences or missing points)", {"M": Mt.tolist()}, {"what": "torch matmul"}); break
+            except Exception as e:
+                bad("matmul raises on the torch body", {"error": type(e).__name__ + ": " + str(e)[:80]}, {"what": "torch matmul"})
         # ---- augment2d
         a0 = arrays(pose.augment2d(rotation_std=0, shear_std=0, scale_std=0))
         if not same_view(a0, src):
